@@ -68,7 +68,14 @@ def write_case(case: Dict[str, Any], path: Path, version: int = 1, lzma_preset: 
     from flipjump.fjm.fjm_writer import Writer
 
     writer = Writer(path, case['w'], FJMVersion(version), lzma_preset=lzma_preset)
-    for start, length, data in segment_data(case):
+    pieces = segment_data(case)
+    # the order of segments inside the file is not part of the image: shuffle it (deterministically per case), so that
+    # readers/engines that silently rely on ascending order are exposed
+    import hashlib
+    import random as _random
+
+    _random.Random(int(hashlib.sha256(repr(case['segments']).encode()).hexdigest()[:8], 16) + version).shuffle(pieces)
+    for start, length, data in pieces:
         data_start = writer.add_data(list(data))
         writer.add_segment(start, length, data_start, len(data))
     writer.write_to_file()
